@@ -7,6 +7,7 @@
      vc <rv> <nchain> <nanch> <node>...      matrixValidateCertsExt(chain, anchors, NULL name)
      ac <nchain> <hasissuer> <node>...       psX509AuthenticateCert(chain, issuer|NULL) directly
      tw <idx> <kidx>                         validate [idx] against anchor [kidx] TWICE on the same structs
+     pv <idx> <aidx>...                      public matrixValidateCerts on untouched parsed certificates: leaf, anchor list
      ps <yyyymmdd> <derhex> <desc...>        psX509ParseCert on (mutated) DER with the calendar at that day, 12:00
 
    node = b:k:hs:ss:co:alg:subj:iss:ver:ca:pl:ku:eku:crit:akl:akv:skl:skv:fl0:st0:nb:na:rev:sf:kf:ta:p3:dn
@@ -33,6 +34,12 @@ static struct base {
     unsigned char *sig; psSize_t sigLen; int32 alg;
 } T[MAXT];
 static int nT;
+
+/* ---- the library's unconditional trace messages go to stdout: silence them (link-time wrappers) */
+void __wrap__psTrace(const char *m) { (void) m; }
+void __wrap__psTraceInt(const char *m, int32 v) { (void) m; (void) v; }
+void __wrap__psTraceStr(const char *m, const char *v) { (void) m; (void) v; }
+void __wrap__psTracePtr(const char *m, const void *v) { (void) m; (void) v; }
 
 /* ---- CRL verdict is an input of the validator: link-time wrapper of the cache lookup */
 static struct { psX509Cert_t *c; int32 st; } g_rev[MAXN * 2]; static int g_nrev;
@@ -200,6 +207,19 @@ int main(void)
                 printf("first=%d/%d second=%d/%d sigbuf_changed=%d\n", (int) r1, s1, (int) r2, s2, changed);
             }
             if (l) psX509FreeCert(l); if (a) psX509FreeCert(a);
+        } else if (g_ntok >= 3 && g_ntok < 3 + MAXN && strcmp(g_tok[0], "pv") == 0) {
+            psX509Cert_t *l = parse_idx(atoi(g_tok[1])), *an[MAXN], *found = NULL; int na = g_ntok - 2, bad = (l == NULL);
+            g_nrev = 0;
+            for (int i = 0; i < na; i++) { an[i] = parse_idx(atoi(g_tok[2 + i])); if (!an[i]) bad = 1; }
+            if (bad) printf("NODEFAIL\n");
+            else {
+                for (int i = 0; i + 1 < na; i++) an[i]->next = an[i + 1];
+                int32 rc = matrixValidateCerts(NULL, l, an[0], NULL, &found, NULL, NULL);
+                printf("rc=%d st=%d\n", (int) rc, (int) l->authStatus);
+                for (int i = 0; i < na; i++) an[i]->next = NULL;
+            }
+            if (l) psX509FreeCert(l);
+            for (int i = 0; i < na; i++) if (an[i]) psX509FreeCert(an[i]);
         } else if (g_ntok >= 3 && strcmp(g_tok[0], "ps") == 0) {   /* further tokens: abstract description for the model side */
             unsigned char *der; size_t l = unhex(g_tok[2], &der);
             psX509Cert_t *c = NULL;
